@@ -1,6 +1,7 @@
 package main
 
 import (
+	"fmt"
 	"go/token"
 	"go/types"
 	"sort"
@@ -203,6 +204,7 @@ func (fb *frameBuilder) direct(fn *ssa.Function) {
 			}
 		}
 	}
+	siteOrd := map[string]int{}
 	for _, b := range fn.Blocks {
 		for _, in := range b.Instrs {
 			switch v := in.(type) {
@@ -238,6 +240,16 @@ func (fb *frameBuilder) direct(fn *ssa.Function) {
 					continue
 				}
 				ce := ng.resolveCallee(c)
+				if _, isCall := in.(*ssa.Call); isCall {
+					siteOrd[ce.label]++
+					ce.siteKey = fmt.Sprintf("%s@%s#%d", ng.key, ce.label, siteOrd[ce.label])
+				}
+				if sc := fb.S.Contracts[ce.siteKey]; sc != nil && ce.siteKey != "" {
+					for _, n := range fb.contractMods(sc, ce, c) {
+						mods[n] = true
+					}
+					continue
+				}
 				if ce.fn != nil && inRepoFn(ce.fn) {
 					fb.calls[fn] = append(fb.calls[fn], ce.fn)
 					fb.static[fn] = append(fb.static[fn], ce.fn)
@@ -265,14 +277,68 @@ func (fb *frameBuilder) implsOf(c *ssa.CallCommon) []*ssa.Function {
 	if !ok {
 		return nil
 	}
+	// local flow refinement: which concrete types can the receiver hold?
+	// (assumption, listed in the evidence: an interface value returned by a function
+	// outside the repository is not an object of a repository type)
+	known, concrete := receiverSources(c.Value, map[ssa.Value]bool{})
 	var out []*ssa.Function
 	for _, m := range fb.impls[c.Method.Name()] {
 		rt := m.Signature.Recv().Type()
-		if types.Implements(rt, iface) {
-			out = append(out, m)
+		if !types.Implements(rt, iface) {
+			continue
 		}
+		if known {
+			ok := false
+			for _, t := range concrete {
+				if types.Identical(t, rt) {
+					ok = true
+				}
+			}
+			if !ok {
+				continue
+			}
+		}
+		out = append(out, m)
 	}
 	return out
+}
+
+// receiverSources traces an interface value back to its sources inside the function.
+// known=false means some source is opaque (parameter, load, in-repo call result).
+func receiverSources(v ssa.Value, seen map[ssa.Value]bool) (known bool, concrete []types.Type) {
+	if seen[v] {
+		return true, nil
+	}
+	seen[v] = true
+	switch x := v.(type) {
+	case *ssa.MakeInterface:
+		return true, []types.Type{x.X.Type()}
+	case *ssa.ChangeInterface:
+		return receiverSources(x.X, seen)
+	case *ssa.Const:
+		return true, nil // nil interface
+	case *ssa.Phi:
+		var all []types.Type
+		for _, e := range x.Edges {
+			k, c := receiverSources(e, seen)
+			if !k {
+				return false, nil
+			}
+			all = append(all, c...)
+		}
+		return true, all
+	case *ssa.Call:
+		if fn := x.Call.StaticCallee(); fn != nil && !inRepoFn(fn) {
+			return true, nil
+		}
+	case *ssa.Extract:
+		if call, ok := x.Tuple.(*ssa.Call); ok {
+			if fn := call.Call.StaticCallee(); fn != nil && !inRepoFn(fn) {
+				return true, nil
+			}
+		}
+	}
+	return false, nil
 }
 
 func (f *FrameInfo) dynamicMods(P *Program, ce callee, c *ssa.CallCommon) []string {
